@@ -35,11 +35,13 @@ type thread struct {
 
 // Point is one recorded scheduling decision.
 type Point struct {
-	Enabled []int  `json:"en"` // canonical order: running thread first if still enabled, then ascending ids
-	Chosen  int    `json:"ch"` // index into Enabled
-	Running int    `json:"run"`
-	RunOK   bool   `json:"runok"` // Running is in Enabled (switching away from it costs a preemption)
-	Op      string `json:"op"`
+	Enabled []int   `json:"en"` // canonical order: running thread first if still enabled, then ascending ids
+	Chosen  int     `json:"ch"` // index into Enabled
+	Running int     `json:"run"`
+	RunOK   bool    `json:"runok"` // Running is in Enabled (switching away from it costs a preemption)
+	Op      string  `json:"op"`
+	Obj     uintptr `json:"-"` // identity of the synchronisation object (stable within one execution)
+	Write   bool    `json:"-"` // the operation conflicts with every other access to Obj (not just with writes)
 }
 
 type Sched struct {
@@ -224,7 +226,11 @@ func (s *Sched) handoff(t *thread, next int) {
 }
 
 // Point is called by the shims before a hooked operation of the running thread.
-func (s *Sched) Point(op string) {
+func (s *Sched) Point(op string) { s.PointObj(op, 0, true) }
+
+// PointObj is Point with the identity of the object operated on and whether the operation is a
+// "write" (conflicts with any other access) or a "read" (conflicts with writes only).
+func (s *Sched) PointObj(op string, obj uintptr, write bool) {
 	if s.cur < 0 || s.finished || s.aborting {
 		return
 	}
@@ -237,10 +243,52 @@ func (s *Sched) Point(op string) {
 	}
 	t := s.threads[s.cur]
 	next := s.choose(t.id, op)
+	if n := len(s.Points); n > 0 {
+		s.Points[n-1].Obj, s.Points[n-1].Write = obj, write
+	}
 	if next == t.id || next == -1 {
 		return
 	}
 	s.handoff(t, next)
+}
+
+// ConflictObjects returns the objects that, in this execution, were accessed by at least two threads
+// with at least one of the accesses being a write. A preemption right before an operation on any
+// other object only reorders independent operations.
+func ConflictObjects(points []Point) map[uintptr]bool {
+	type acc struct {
+		readers, writers map[int]bool
+	}
+	m := map[uintptr]*acc{}
+	for _, p := range points {
+		if p.Obj == 0 || p.Running < 0 {
+			continue
+		}
+		a := m[p.Obj]
+		if a == nil {
+			a = &acc{map[int]bool{}, map[int]bool{}}
+			m[p.Obj] = a
+		}
+		if p.Write {
+			a.writers[p.Running] = true
+		} else {
+			a.readers[p.Running] = true
+		}
+	}
+	out := map[uintptr]bool{}
+	for o, a := range m {
+		all := map[int]bool{}
+		for t := range a.readers {
+			all[t] = true
+		}
+		for t := range a.writers {
+			all[t] = true
+		}
+		if len(all) >= 2 && len(a.writers) >= 1 {
+			out[o] = true
+		}
+	}
+	return out
 }
 
 // Block disables the running thread until cond() holds, handing control to another thread meanwhile.
